@@ -9,6 +9,7 @@
 package net
 
 import (
+	"context"
 	"errors"
 	"io"
 	"net"
@@ -101,6 +102,7 @@ type state struct {
 	openSocks int
 	lastX1    *StreamConn
 	lastX2    *StreamConn
+	xSealed   bool
 }
 
 //go:norace
@@ -1414,6 +1416,13 @@ func dialStream(network, address string) (Conn, error) {
 		}
 		remote := &TCPAddr{IP: net.ParseIP(h), Port: port}
 		c1, c2 := newPair(network, local, remote)
+		if s.xSealed {
+			// the run's own pairs are complete: a later dialer (a transport that re-dials on its own) reaches a
+			// peer that hangs up at once
+			c2.Close()
+			rt.Seq()
+			return c1, nil
+		}
 		s.lastX1, s.lastX2 = c1, c2
 		s.xw = &xwait{key: key, c: c2, next: s.xw}
 		rt.Seq()
@@ -1482,14 +1491,51 @@ func DialTCP(network string, laddr, raddr *TCPAddr) (*TCPConn, error) {
 
 // Dialer mirrors the fields commonly set; timeouts are irrelevant because simulated connects are instantaneous.
 type Dialer struct {
-	Timeout   time.Duration
-	Deadline  time.Time
-	LocalAddr Addr
-	KeepAlive time.Duration
+	Timeout         time.Duration
+	Deadline        time.Time
+	LocalAddr       Addr
+	DualStack       bool
+	FallbackDelay   time.Duration
+	KeepAlive       time.Duration
+	KeepAliveConfig net.KeepAliveConfig
+	Resolver        *net.Resolver
+	Cancel          <-chan struct{}
+	Control         func(network, address string, c syscall.RawConn) error
+	ControlContext  func(ctx context.Context, network, address string, c syscall.RawConn) error
 }
 
 //go:norace
 func (d *Dialer) Dial(network, address string) (Conn, error) { return Dial(network, address) }
+
+// DialContext: connection establishment takes no simulated time, so the context only matters if it is already done.
+//
+//go:norace
+func (d *Dialer) DialContext(ctx context.Context, network, address string) (Conn, error) {
+	if err := ctx.Err(); err != nil {
+		return nil, opErr("dial", network, err)
+	}
+	return Dial(network, address)
+}
+
+// SealCrossover: from now on nobody is waiting at the crossover addresses any more (see Dial).
+//
+//go:norace
+func SealCrossover() { st().xSealed = true }
+
+// CloseUnpaired closes the far end of every crossover connection that is still waiting for its second dialer (a
+// transport that re-dialled on its own after its connection broke talks to nobody: its writes must not block for ever).
+//
+//go:norace
+func CloseUnpaired() int {
+	s := st()
+	n := 0
+	for x := s.xw; x != nil; x = x.next {
+		x.c.Close()
+		n++
+	}
+	s.xw = nil
+	return n
+}
 
 // LastCrossover returns the two ends of the most recent crossover connection (first dialer's end first).
 //
